@@ -9,6 +9,7 @@ typedef struct TcpEngine { AtomicStats _atomicStats; int _eventFd; bool _running
 static inline int iora_isa(int exc, int ty) { return exc == ty; }
 
 size_t G_handed;                 /* positions of the witness session's accepted stream handed to doSend so far */
+bool G_hasc0;                    /* process(): a Connect carrying GCSID was in the queue at entry */
 size_t G_qend;                   /* process(): end of the accepted positions that are in the swapped-out queue */
 unsigned G_dosend_calls, G_dosend_w_calls, G_wake_calls, G_onerror_calls, G_scb_calls, G_closeNow_calls, G_doconnect_calls, G_dolisten_calls;
 bool G_scb_ok; size_t G_scb_len; SessionId G_scb_sid; unsigned G_scb_after_push;
@@ -26,7 +27,7 @@ static inline void TcpEngine_doSend(TcpEngine *self, SendReq sr)
 }
 /* the other handlers: outside this unit (tcp_close_routes, tcp_close); they may throw std::exception (process() catches it) */
 static inline bool TcpEngine_doAddListener(TcpEngine *self, ListenerCfg l) { (void)l; IORA_ASSERT(!self->_cmdMutex.held, "PQ4 command handlers run with _cmdMutex released"); if (G_dolisten_calls < 0x7fffffffu) G_dolisten_calls++; if (nondet_bool()) iora_exc = EXC_exception; return nondet_bool(); }
-static inline bool TcpEngine_doConnect(TcpEngine *self, ConnectReq c) { (void)c; IORA_ASSERT(!self->_cmdMutex.held, "PQ4 command handlers run with _cmdMutex released"); if (G_doconnect_calls < 0x7fffffffu) G_doconnect_calls++; if (nondet_bool()) iora_exc = EXC_exception; return nondet_bool(); }
+static inline bool TcpEngine_doConnect(TcpEngine *self, ConnectReq c) { IORA_ASSERT(!self->_cmdMutex.held, "PQ4 command handlers run with _cmdMutex released"); if (G_doconnect_calls < 0x7fffffffu) G_doconnect_calls++; if (c.sid == GCSID) G_doconnect_w_calls++; if (nondet_bool()) iora_exc = EXC_exception; return nondet_bool(); }
 static inline void TcpEngine_closeNow(TcpEngine *self, Session *s, TransportError why, const char *msg, int tlsErr) { (void)s; (void)why; (void)msg; (void)tlsErr; IORA_ASSERT(!self->_cmdMutex.held, "PQ4 command handlers run with _cmdMutex released"); if (G_closeNow_calls < 0x7fffffffu) G_closeNow_calls++; }
 static inline void TcpEngine_setLastFatal(TcpEngine *self) { (void)self; }
 static inline void iora_cb_onError(TcpEngine *self, TransportError e) { (void)e; IORA_ASSERT(!self->_cbMutex.held && !self->_cmdMutex.held, "CB1 user callback runs outside the engine mutexes"); if (G_onerror_calls < 0x7fffffffu) G_onerror_calls++; }
@@ -44,7 +45,8 @@ static inline void iora_engine_sendAsync(Transport *self, SessionId sid, const v
 /* loop 1 of process(): the dispatch loop over the swapped-out commands (any number) */
 #define IORA_LOOP_TcpEngine_process_1 IORA_LC( \
   __CPROVER_assigns(iora_i, q.w, q.cur, self->_running, self->_cbMutex.held, iora_exc, iora_exc_caught, G_handed, G_dosend_calls, G_dosend_w_calls, G_onerror_calls, \
-                    G_closeNow_calls, G_doconnect_calls, G_dolisten_calls) \
-  __CPROVER_loop_invariant(iora_i <= q.n && q.w.n <= q.n - iora_i && QSTREAM(q.w, G_qend)) \
+                    G_closeNow_calls, G_doconnect_calls, G_dolisten_calls, G_doconnect_w_calls, G_iter_is_wc, G_iter_base, q.has_c) \
+  __CPROVER_loop_invariant(iora_i <= q.n && q.w.n + (q.has_c ? 1u : 0u) <= q.n - iora_i && QSTREAM(q.w, G_qend)) \
+  __CPROVER_loop_invariant((!q.has_c || G_hasc0) && G_doconnect_w_calls == ((G_hasc0 && !q.has_c) ? 1u : 0u)) \
   __CPROVER_loop_invariant(iora_exc == EXC_NONE && !self->_cbMutex.held && !self->_cmdMutex.held) \
   __CPROVER_decreases(q.n - iora_i))
